@@ -22,6 +22,8 @@ import (
 	banktypes "github.com/cosmos/cosmos-sdk/x/bank/types"
 	govv1 "github.com/cosmos/cosmos-sdk/x/gov/types/v1"
 	stakingtypes "github.com/cosmos/cosmos-sdk/x/staking/types"
+	transfertypes "github.com/cosmos/ibc-go/v7/modules/apps/transfer/types"
+	clienttypes "github.com/cosmos/ibc-go/v7/modules/core/02-client/types"
 	"github.com/ethereum/go-ethereum/common"
 
 	ucdaotypes "github.com/haqq-network/haqq/x/ucdao/types"
@@ -65,16 +67,16 @@ type model struct {
 }
 
 type driver struct {
-	w       *world.World
-	tier    string
-	t0      int64
-	sc      schedule
-	models  []model
-	abis    precomp.ABIs
-	vKey    int
+	w          *world.World
+	tier       string
+	t0         int64
+	sc         schedule
+	models     []model
+	abis       precomp.ABIs
+	vKey       int
 	V, F, R, G sdk.AccAddress
-	fwd     common.Address
-	free    int64
+	fwd        common.Address
+	free       int64
 }
 
 func toSDK(ps []rm.Period) sdkvesting.Periods {
@@ -123,6 +125,9 @@ func newDriver(tier string, sc schedule) *driver {
 		panic(err)
 	}
 	if _, err := w.RunMsg(w.Ctx(), prop); err != nil {
+		panic(err)
+	}
+	if err := w.OpenLocalhostChannels(w.Ctx()); err != nil {
 		panic(err)
 	}
 	// forwarding contract: sends its whole call value on to R
@@ -273,7 +278,9 @@ func (d *driver) ops(w *world.World, depth int, path []string) []engine.Op {
 	}
 	coin := func(a sdkmath.Int) sdk.Coins { return sdk.NewCoins(sdk.NewCoin(world.Denom, a)) }
 	spends := []spend{
-		{"send", func(a sdkmath.Int) []byte { return d.cosmos([]sdk.Msg{banktypes.NewMsgSend(d.V, d.R, coin(a))}, nil, vKeyIdx) }},
+		{"send", func(a sdkmath.Int) []byte {
+			return d.cosmos([]sdk.Msg{banktypes.NewMsgSend(d.V, d.R, coin(a))}, nil, vKeyIdx)
+		}},
 		{"multisend", func(a sdkmath.Int) []byte {
 			return d.cosmos([]sdk.Msg{banktypes.NewMsgMultiSend([]banktypes.Input{banktypes.NewInput(d.V, coin(a))}, []banktypes.Output{banktypes.NewOutput(d.R, coin(a))})}, nil, vKeyIdx)
 		}},
@@ -282,8 +289,21 @@ func (d *driver) ops(w *world.World, depth int, path []string) []engine.Op {
 		{"fee", func(a sdkmath.Int) []byte {
 			return d.cosmos([]sdk.Msg{banktypes.NewMsgSend(d.V, d.V, sdk.NewCoins(sdk.NewInt64Coin(world.Denom, 1)))}, coin(a), vKeyIdx)
 		}},
-		{"dao-fund", func(a sdkmath.Int) []byte { return d.cosmos([]sdk.Msg{ucdaotypes.NewMsgFund(coin(a), d.V)}, nil, vKeyIdx) }},
-		{"gov-deposit", func(a sdkmath.Int) []byte { return d.cosmos([]sdk.Msg{govv1.NewMsgDeposit(d.V, 1, coin(a))}, nil, vKeyIdx) }},
+		{"dao-fund", func(a sdkmath.Int) []byte {
+			return d.cosmos([]sdk.Msg{ucdaotypes.NewMsgFund(coin(a), d.V)}, nil, vKeyIdx)
+		}},
+		{"gov-deposit", func(a sdkmath.Int) []byte {
+			return d.cosmos([]sdk.Msg{govv1.NewMsgDeposit(d.V, 1, coin(a))}, nil, vKeyIdx)
+		}},
+		// bridging out: ICS-20 transfer by message and through the ICS-20 precompile (escrowed on channel-0)
+		{"ibc-transfer", func(a sdkmath.Int) []byte {
+			return d.cosmos([]sdk.Msg{transfertypes.NewMsgTransfer(world.IBCPort, world.IBCChannelA, sdk.NewCoin(world.Denom, a), d.V.String(), d.R.String(),
+				clienttypes.NewHeight(3, 100000000), 0, "")}, nil, vKeyIdx)
+		}},
+		{"ics20-precompile", func(a sdkmath.Int) []byte {
+			return d.eth(precomp.ICS20Addr, nil, precomp.MustPack(d.abis.ICS20, "transfer", world.IBCPort, world.IBCChannelA, world.Denom, a.BigInt(),
+				common.BytesToAddress(d.V), d.R.String(), struct{ RevisionNumber, RevisionHeight uint64 }{3, 100000000}, uint64(0), ""))
+		}},
 	}
 	for _, s := range spends {
 		for _, cls := range classes {
@@ -317,7 +337,9 @@ func (d *driver) ops(w *world.World, depth int, path []string) []engine.Op {
 	v1 := w.ValAddr[0]
 	dcoin := func(a sdkmath.Int) sdk.Coin { return sdk.NewCoin(world.Denom, a) }
 	deles := []dele{
-		{"delegate-msg", func(a sdkmath.Int) []byte { return d.cosmos([]sdk.Msg{stakingtypes.NewMsgDelegate(d.V, v1, dcoin(a))}, nil, vKeyIdx) }},
+		{"delegate-msg", func(a sdkmath.Int) []byte {
+			return d.cosmos([]sdk.Msg{stakingtypes.NewMsgDelegate(d.V, v1, dcoin(a))}, nil, vKeyIdx)
+		}},
 		{"delegate-authz", func(a sdkmath.Int) []byte {
 			ex := authz.NewMsgExec(d.G, []sdk.Msg{stakingtypes.NewMsgDelegate(d.V, v1, dcoin(a))})
 			return d.cosmosG([]sdk.Msg{&ex})
@@ -482,12 +504,12 @@ func Run(tier string) int {
 	res.Sample(map[string]any{"path": []string{"schedule=lock[20:4000]-vest[10:4000]", "time(+11)", "delegate-precompile(max)", "eth-contract-forward(sp+1)"}})
 	return engine.Finish(res, engine.Meta{
 		Property: Prop, Tier: tier, Level: "model_checking", Start: start,
-		Rule: "per schedule fixture: all sequences <= depth over 28 spend operations (7 paths x {1, spendable, spendable+1, balance}), 9 delegations (message / authz exec / staking precompile x {1, max, max+1}), undelegate, block boundary (unbonding completion), slash, clawback, 7 time jumps; every transaction through the real DeliverTx; non-trivial = operation that moved coins, distinct by (schedule, path, amount class, time)",
+		Rule:   "per schedule fixture: all sequences <= depth over 36 spend operations (9 paths x {1, spendable, spendable+1, balance}), 9 delegations (message / authz exec / staking precompile x {1, max, max+1}), undelegate, block boundary (unbonding completion), slash, clawback, 7 time jumps; every transaction through the real DeliverTx; non-trivial = operation that moved coins, distinct by (schedule, path, amount class, time)",
 		Bounds: map[string]any{"depth": depth, "schedules": len(schedules(tier))},
 		Assumptions: []string{
 			"reference = step functions from the grant parameters; tracked delegation read from the account but bounded by the reference's own delegation counter",
 			"zero gas prices (fee path is exercised by an explicit fee operation)",
-			"IBC transfer, ERC-20 conversion and liquidation are not in this alphabet (no channel fixture; single vesting denomination; liquid vesting is C11)",
+			"ICS-20 transfers run over channel ends written on ibc-go's localhost connection; ERC-20 conversion is not in this alphabet (the vesting denomination is the staking/EVM denomination, which cannot be a token pair); liquidation moves locked coins by design and is C11's subject",
 		},
 	})
 }
